@@ -92,6 +92,10 @@ UnknownColumn(op) ==
   /\ ret' = [op |-> op, ok |-> FALSE, rows |-> <<>>]
   /\ UNCHANGED <<schema, disk, gen>>
 
+\* ... and so is a statement that names one column twice (INSERT INTO t (c1, c1) ..., UPDATE t SET c1 = .., c1 = ..):
+\* one of the two values it offers could not be stored
+RepeatedColumn(op) == UnknownColumn(op)
+
 Flush == /\ disk' = Load /\ mem' = Load /\ dirty' = FALSE
          /\ ret' = [op |-> "flush", ok |-> TRUE, rows |-> <<>>]
          /\ UNCHANGED <<schema, abs, warm, gen, nmut>>
